@@ -259,6 +259,14 @@ pub struct Slot {
     pub clock: libc::clockid_t,
     pub counter: AtomicU64,
     pub current: Mutex<Option<(String, Box<dyn Erased>)>>,
+    /// journal mode (second run after the process died): the case in flight is written here first
+    pub journal: Option<Mutex<std::fs::File>>,
+}
+
+/// directory of the per-thread journal files, set by the supervisor after a crash of the first run
+fn journal_dir() -> Option<&'static PathBuf> {
+    static D: std::sync::OnceLock<Option<PathBuf>> = std::sync::OnceLock::new();
+    D.get_or_init(|| std::env::var_os("VERIF_JOURNAL").map(PathBuf::from)).as_ref()
 }
 
 pub static SLOTS: Mutex<Vec<std::sync::Arc<Slot>>> = Mutex::new(Vec::new());
@@ -276,12 +284,23 @@ fn announce<I: Serialize + Clone + Send + 'static>(input: &I, check: CheckFn<I>)
     MY_SLOT.with(|s| {
         let mut s = s.borrow_mut();
         if s.is_none() {
-            let slot = std::sync::Arc::new(Slot { clock: meter::my_cpu_clock(), counter: AtomicU64::new(0), current: Mutex::new(None) });
-            SLOTS.lock().unwrap().push(slot.clone());
+            let mut all = SLOTS.lock().unwrap();
+            let journal = journal_dir().and_then(|d| std::fs::File::create(d.join(format!("slot-{}.json", all.len()))).ok()).map(Mutex::new);
+            let slot = std::sync::Arc::new(Slot { clock: meter::my_cpu_clock(), counter: AtomicU64::new(0), current: Mutex::new(None), journal });
+            all.push(slot.clone());
+            drop(all);
             *s = Some(slot);
         }
         let slot = s.as_ref().unwrap();
         let section = SECTION.with(|x| x.borrow().clone());
+        if let Some(j) = &slot.journal {
+            use std::io::{Seek, Write};
+            let text = serde_json::to_vec(&json!({"section": section, "input": serde_json::to_value(input).unwrap_or(Value::Null)})).unwrap_or_default();
+            let mut f = j.lock().unwrap();
+            let _ = f.set_len(0);
+            let _ = f.seek(std::io::SeekFrom::Start(0));
+            let _ = f.write_all(&text);
+        }
         *slot.current.lock().unwrap() = Some((section, Box::new(Current { input: input.clone(), check })));
         slot.counter.fetch_add(1, Ordering::SeqCst);
     });
@@ -291,6 +310,9 @@ fn retire() {
     MY_SLOT.with(|s| {
         if let Some(slot) = s.borrow().as_ref() {
             slot.counter.fetch_add(1, Ordering::SeqCst);
+            if let Some(j) = &slot.journal {
+                let _ = j.lock().unwrap().set_len(0);
+            }
         }
     });
 }
